@@ -139,7 +139,7 @@ var keywords = map[string]bool{
 	"func": true, "trusted": true, "props": true, "mode": true, "requires": true, "ensures": true,
 	"modifies": true, "loop": true, "at-call": true, "at-store": true, "inline": true, "pure": true,
 	"spec": true, "axiom": true, "guarded_by": true, "monitor": true, "census": true, "panics": true,
-	"why:": true, "regexlang": true, "recovers": true, "closure-only": true, "recovers-errors": true, "passed-only": true, "params": true, "ghostfield": true, "ufn": true, "checks": true, "nobody": true, "ghost": true, "maypanic": true, "splitpaths": true, "reach": true, "sweep": true, "sweep-reachable": true, "ghostpre": true, "errpanics": true,
+	"why:": true, "regexlang": true, "recovers": true, "closure-only": true, "recovers-errors": true, "passed-only": true, "uses-param": true, "params": true, "ghostfield": true, "ufn": true, "checks": true, "nobody": true, "ghost": true, "maypanic": true, "splitpaths": true, "reach": true, "sweep": true, "sweep-reachable": true, "ghostpre": true, "errpanics": true,
 }
 
 type rawLine struct {
@@ -440,7 +440,7 @@ func ParseFile(filename, pkg, src string) (*File, error) {
 			}
 			f.Regexes = append(f.Regexes, &RegexDecl{Global: m[1], Spec: sp, Props: strings.Fields(m[3]), Pkg: pkg, File: filename, Line: r.line})
 			cur = nil
-		case "recovers", "closure-only", "recovers-errors", "passed-only":
+		case "recovers", "closure-only", "recovers-errors", "passed-only", "uses-param":
 			// recovers F ; props Cxx      |      closure-only A in B, C ; props Cxx
 			main, props, _ := strings.Cut(rest, ";")
 			sd := &StructDecl{Kind: kw, Pkg: pkg, File: filename, Line: r.line}
@@ -460,6 +460,13 @@ func ParseFile(filename, pkg, src string) (*File, error) {
 						sd.Args = append(sd.Args, x)
 					}
 				}
+			} else if kw == "uses-param" {
+				// uses-param F name : the named parameter of F is actually used by its body
+				mf := strings.Fields(main)
+				if len(mf) != 2 {
+					return nil, errf("uses-param F name")
+				}
+				sd.Args = mf
 			} else if kw == "passed-only" {
 				// passed-only A to F : the closure A is created once and its only use is as an argument of a direct call of F
 				a, b, ok := strings.Cut(main, " to ")
